@@ -26,6 +26,7 @@ import (
 	"encoding/json"
 	"fmt"
 	"os"
+	"runtime/debug"
 	"strings"
 	"sync"
 	"time"
@@ -115,6 +116,9 @@ func run(c *fw.Ctx) {
 }
 
 func search(c *fw.Ctx) {
+	// a booted node holds ~0.7 GB (LevelDB write buffers, caches) and every restart op
+	// allocates a fresh 128 MiB memtable for the joined-group store: collect eagerly
+	debug.SetMemoryLimit(400 << 20)
 	boot()
 	depth := depthOf(c)
 	designated := c.Mine(0) // exactly one worker accounts for the shared levels
@@ -288,6 +292,7 @@ func main() {
 			"sqlite side index: only 'operations succeed' and its row set as part of the state key",
 		},
 		Run: run, Replay: replay,
+		Workers: func(tier string) int { return 8 }, // ~1 GB resident per booted worker
 		Budget: func(tier string) time.Duration {
 			if tier == "thorough" {
 				return 17 * time.Minute
